@@ -64,7 +64,7 @@ def generate(rng, tier):
         fam = rng.choice("AAAEET")
         if fam == "A":
             d, _, _ = rand_exact_dur(rng, decimals=False)
-            cases.append(Case(["rmake %s %s" % (md, args), "radd %s %s %s" % (md, args, d)],
+            cases.append(Case(["rmake %s %s" % (md, args), "recadd %s %s %s" % (md, args, d)],
                               ["shift", "mode:" + md, "fmt:%d" % info["fmt"], "kind:" + info["kind"],
                                "reps:" + ("inf" if info["n"] is None else "1" if info["n"] == 1 else "n")],
                               md=md, fam="A", shift=d, **info))
